@@ -29,6 +29,7 @@ package main
 // Each key is reported once, with the number of cases and the smallest witness.
 
 import (
+	crand "crypto/rand"
 	"bufio"
 	"bytes"
 	"encoding/hex"
@@ -1030,6 +1031,73 @@ func (k *kfRun) oracleOnly() {
 	}
 }
 
+// ImportKeys accepts key files that leave numbers of a key out (pinned by /repo's tests). A
+// conversation that is given such a key must still not panic when the peer's messages reach the
+// point where it would sign: every subset of the five numbers left out, either role, both versions.
+func (k *kfRun) incompleteKeys() {
+	full := testKeys[0]
+	nums := map[string]*big.Int{"p": full.PrivateKey.P, "q": full.PrivateKey.Q, "g": full.PrivateKey.G, "y": full.PrivateKey.Y, "x": full.X}
+	for mask := 1; mask < 32; mask++ {
+		var sb strings.Builder
+		sb.WriteString("(privkeys (account (name a) (protocol b) (private-key (dsa ")
+		left := ""
+		for i, n := range []string{"p", "q", "g", "y", "x"} {
+			if mask&(1<<uint(i)) != 0 {
+				left += n
+				continue
+			}
+			sb.WriteString("(" + n + " #" + kfEvenHex(nums[n]) + "#)")
+		}
+		sb.WriteString("))))")
+		as, err := otr3.ImportKeys(bytes.NewReader([]byte(sb.String())))
+		if err != nil || len(as) != 1 {
+			k.g.dist["incomplete-key:import-rejected"]++
+			continue
+		}
+		for role := 0; role < 2; role++ {
+			for ver := 2; ver <= 3; ver++ {
+				olog.ok("C13")
+				k.g.dist["incomplete-key:exchange"]++
+				res := guard(func() string {
+					mk := func(key otr3.PrivateKey) *otr3.Conversation {
+						c := &otr3.Conversation{Rand: crand.Reader}
+						if ver == 2 {
+							c.Policies.AllowV2()
+						} else {
+							c.Policies.AllowV3()
+						}
+						c.SetOurKeys([]otr3.PrivateKey{key})
+						return c
+					}
+					a, b := mk(as[0].Key), mk(testKeys[1])
+					x, y := a, b
+					if role == 1 {
+						x, y = b, a
+					}
+					ms := []otr3.ValidMessage{x.QueryMessage()}
+					for i := 0; i < 8 && len(ms) > 0; i++ {
+						var nx []otr3.ValidMessage
+						for _, m := range ms {
+							_, ts, _ := y.Receive(m)
+							nx = append(nx, ts...)
+						}
+						ms = nx
+						x, y = y, x
+					}
+					// still usable afterwards
+					a.Receive(otr3.ValidMessage("hello"))
+					a.Send(otr3.ValidMessage("hello"))
+					return "ok"
+				})
+				if res == "PANIC" {
+					k.finding("C13", "panic-with-incomplete-imported-key", fmt.Sprintf("a conversation whose long-term key was imported from a key file that leaves out %q panicked during a key exchange", left),
+						fmt.Sprintf("importkeys %s; OTRv%d, role %d", sb.String()[:60]+"…", ver, role))
+				}
+			}
+		}
+	}
+}
+
 func init() {
 	if os.Getenv(kfWorkerEnv) != "" {
 		keyfileWorker()
@@ -1048,6 +1116,7 @@ func init() {
 			k.scenario()
 		}
 		k.oracleOnly()
+		k.incompleteKeys()
 		wit := map[string]interface{}{}
 		var keys []string
 		for key := range k.findings {
